@@ -94,9 +94,12 @@ ScheduleInsensitive(e) == e.res # "Hang" /\ e.res # "Panic" /\ e.res = e.canonRe
 (* ---------------- C08: failed writes ---------------- *)
 MinN(a, b) == IF a < b THEN a ELSE b
 \* serialiser level: the writer fails once k bytes have been accepted
-WriteFaultOk(e) == /\ e.gotLen = MinN(e.k, e.canonLen)                \* exactly the bytes accepted ...
-                   /\ e.gotDigest = e.prefixDigest                    \* ... and they are a prefix of the one correct serialisation
-                   /\ e.res = (IF e.k >= e.canonLen THEN e.canonRes ELSE "Disconnected")
+WriteFaultOk(e) == \/ /\ e.gotLen = MinN(e.k, e.canonLen)             \* exactly the bytes accepted ...
+                      /\ e.gotDigest = e.prefixDigest                 \* ... and they are a prefix of the one correct serialisation
+                      /\ e.res = (IF e.k >= e.canonLen THEN e.canonRes ELSE "Disconnected")
+                   \* the writer reported the error once and would have accepted bytes again: an implementation that carries on
+                   \* has not failed, provided what is on the wire is the one correct serialisation, no byte twice, none missing
+                   \/ /\ e.transient /\ e.res = e.canonRes /\ e.gotLen = e.canonLen /\ e.gotDigest = e.canonDigest
 \* body source: file shorter than declared / missing / removed between head and body
 BodyFaultOk(e) == /\ e.headOk                                         \* the head went out complete, with the declared length
                   /\ CASE e.what = "short" -> e.bodyLen = e.actual /\ e.bodyDigest = e.wantDigest /\ e.res = "ErrorReadingResponseBody"
